@@ -30,6 +30,8 @@ struct MachineBus<'a> {
     delayed: u32,
     /// (T at the start of the port cycle, port, value) of every port write
     outs: Vec<(u64, u16, u8)>,
+    /// overrides the INT line level (alternative-history runs of the sequencing judge)
+    force_int: Option<bool>,
 }
 
 impl<'a> MachineBus<'a> {
@@ -81,7 +83,7 @@ impl<'a> RefBus for MachineBus<'a> {
         }
     }
     fn sample_lines(&mut self) -> (bool, bool) {
-        (false, self.ula.int_active(self.t))
+        (false, self.force_int.unwrap_or(self.ula.int_active(self.t)))
     }
     fn int_bus_byte(&mut self) -> u8 {
         0xFF
@@ -94,6 +96,9 @@ pub enum Judge {
     Contention,
     /// clock differences at frame crossings / interrupt entries, frame count (C05)
     FrameAccounting,
+    /// register differences that are exactly "an interrupt was accepted where the rules forbid it, or
+    /// not accepted where they demand it" (C02 at machine level, with host actions in between)
+    Sequencing,
 }
 
 fn sync_model_from_machine(e: &mut Emu, m: &mut RefMem, m128: bool) {
@@ -201,15 +206,33 @@ pub fn run(m128: bool, seed: u64, steps: usize, judge: Judge, prefix: &str, ctx:
     let mut frames_impl: u64 = 0;
     let mut stuck = 0u32;
     let mut since_sync = 0u64;
+    // (instructions still to execute before it happens, selector)
+    let mut pending_action: Option<(u8, u64)> = None;
+    let mut last_action: &'static str = "none";
     for step in 0..steps {
         let pre = CpuState::from_ref(&r);
+        let latch_before = (m.top, m.shadow_screen, m.rom, m.locked, m.last_7ffd);
         let (info, t_after, undo, io_read, amb, delayed) = {
-            let mut bus = MachineBus { m: &mut m, ula, t: t_ref, undo: vec![], io_read: false, ambiguous: false, delayed: 0, outs: vec![] };
+            let mut bus = MachineBus { m: &mut m, ula, t: t_ref, undo: vec![], io_read: false, ambiguous: false, delayed: 0, outs: vec![], force_int: None };
             let info = r.step(&mut bus);
             (info, bus.t, bus.undo, bus.io_read, bus.ambiguous || info.ambiguous.is_some(), bus.delayed)
         };
+        // a host action scheduled by the previous (crafted) instruction happens here, between two
+        // instructions - or, for a prefix chain, in the middle of it
+        if step > 0 {
+            last_action = "none";
+        }
+        match pending_action.take() {
+            Some((0, a)) => last_action = host_action(&mut e, m128, a, ctx),
+            Some((n, a)) => pending_action = Some((n - 1, a)),
+            None => {}
+        }
         let mut passed = step_public(&mut e).map_err(|x| Fail::new(&format!("{}.step", prefix), "", x))?;
         let mut guard = 0;
+        if e.verif_cpu().verif_prefix_pending() && (seed >> 52) & 1 == 1 && step % 7 == 3 {
+            ctx.probe("lockstep_host_action_mid_prefix_chain");
+            let _ = host_action(&mut e, m128, seed ^ step as u64, ctx);
+        }
         while e.verif_cpu().verif_prefix_pending() && guard < 600 {
             passed += step_public(&mut e).map_err(|x| Fail::new(&format!("{}.step", prefix), "", x))?;
             guard += 1;
@@ -250,7 +273,55 @@ pub fn run(m128: bool, seed: u64, steps: usize, judge: Judge, prefix: &str, ctx:
             // bytes it stored are adopted from the machine afterwards
             let value_diff = if io_read { None } else { post_i.diff(&post_r, 0x28) };
             if let Some((f, a, b)) = value_diff {
-                // not a timing matter (C01 / C06 judge values)
+                // not a timing matter (C01 / C06 judge values) - unless the difference is exactly an interrupt
+                // taken / not taken against the sequencing rules, which the C02 judge reports
+                if judge == Judge::Sequencing && latch_before == (m.top, m.shadow_screen, m.rom, m.locked, m.last_7ffd) {
+                    let mut m_alt = m.clone();
+                    for (addr, old) in undo.iter().rev() {
+                        m_alt.write(*addr, *old);
+                    }
+                    let mut alt_pre = pre.clone();
+                    let force = if int {
+                        Some(false)
+                    } else if pre.iff1 {
+                        alt_pre.no_sample = false;
+                        Some(true)
+                    } else {
+                        None
+                    };
+                    if let Some(force) = force {
+                        let mut r_alt: RefZ80 = alt_pre.to_ref();
+                        {
+                            let mut bus = MachineBus { m: &mut m_alt, ula, t: t_ref, undo: vec![], io_read: false, ambiguous: false, delayed: 0, outs: vec![], force_int: Some(force) };
+                            let _ = r_alt.step(&mut bus);
+                        }
+                        let alt_post = CpuState::from_ref(&r_alt);
+                        let mut pi = cpu_state(&mut e);
+                        pi.memptr = alt_post.memptr;
+                        pi.q = alt_post.q;
+                        pi.no_sample = alt_post.no_sample;
+                        if pi.diff(&alt_post, 0x28).is_none() {
+                            let page = crate::worlda::page_name(info.page);
+                            return Err(Fail::new(
+                                &format!("{}.machine_sequencing", prefix),
+                                &format!("machine={},accepted_by_machine={},after_host_action={}", machine, (!int) as u8, last_action),
+                                format!(
+                                    "at the instruction boundary before {} {:02X} (PC={:04X}, frame T {}, INT line {}, IFF1={}, boundary {}sampled; host action just before: {}) the machine {} the interrupt, the sequencing rules {}",
+                                    page,
+                                    info.opcode,
+                                    pre.pc,
+                                    t_ref % frame,
+                                    if ula.int_active(t_ref) { "active" } else { "inactive" },
+                                    pre.iff1,
+                                    if pre.no_sample { "not " } else { "" },
+                                    last_action,
+                                    if int { "did not accept" } else { "accepted" },
+                                    if int { "demand it" } else { "forbid it" }
+                                ),
+                            ));
+                        }
+                    }
+                }
                 ctx.probe("lockstep_value_divergence_skipped");
                 let _ = (f, a, b);
                 resync(&mut e, &mut m, &mut r, &mut t_ref, frames_impl);
@@ -278,6 +349,7 @@ pub fn run(m128: bool, seed: u64, steps: usize, judge: Judge, prefix: &str, ctx:
                 let mine = match judge {
                     Judge::Contention => !crossed && !int,
                     Judge::FrameAccounting => crossed || int,
+                    Judge::Sequencing => false,
                 };
                 if mine {
                     let page = crate::worlda::page_name(info.page);
@@ -339,11 +411,56 @@ pub fn run(m128: bool, seed: u64, steps: usize, judge: Judge, prefix: &str, ctx:
             stuck = 0;
         }
         if stuck > 8 || (step % 400 == 399) {
-            let st = new_state(&mut rng);
+            let mut st = new_state(&mut rng);
+            let crafted = judge == Judge::Sequencing || rng.chance(1, 3);
+            if crafted {
+                // a sequencing-critical instruction that ends inside the INT pulse, then (half of the time)
+                // a host action right behind it
+                ctx.probe("lockstep_crafted_boundary");
+                st.pc = 0x8000 + (rng.u16() % 0x3F00);
+                let variant = rng.below(6);
+                if variant == 5 {
+                    // IM 2 with a handler that re-enables interrupts at once: the 32-T pulse is long enough for a
+                    // second acceptance (EI; NOP -> INT -> handler EI; NOP -> INT again)
+                    ctx.probe("lockstep_crafted_short_im2_handler");
+                    st.im = 2;
+                    st.i = 0xA0;
+                    st.sp = 0xBF00;
+                    let handler: u16 = 0xA400 + (rng.u16() & 0xFF);
+                    for (a, b) in [(0xA0FFu16, handler as u8), (0xA100, (handler >> 8) as u8), (handler, 0xFB), (handler.wrapping_add(1), 0x00), (handler.wrapping_add(2), 0x00), (handler.wrapping_add(3), 0xFB), (handler.wrapping_add(4), 0xC9)] {
+                        m.write(a, b);
+                        write_mem(&mut e, a, &[b]);
+                    }
+                }
+                let code: Vec<u8> = match variant.min(4) {
+                    _ if variant == 5 => vec![0xFB, 0x00, 0x00, 0x00],
+                    0 | 1 => vec![0xFB, rng.u8(), rng.u8(), rng.u8()],
+                    2 => vec![*rng.pick(&[0xDDu8, 0xFD]), *rng.pick(&[0xDDu8, 0xFD]), rng.u8(), rng.u8(), rng.u8()],
+                    3 => vec![0x76],
+                    _ => vec![0xF3, rng.u8(), rng.u8()],
+                };
+                for (i, b) in code.iter().enumerate() {
+                    m.write(st.pc.wrapping_add(i as u16), *b);
+                }
+                write_mem(&mut e, st.pc, &code);
+                st.iff1 = rng.chance(2, 3);
+                st.iff2 = st.iff1;
+                if rng.bool() {
+                    // right behind the crafted instruction
+                    pending_action = Some((1, rng.next()));
+                }
+            }
             st.to_impl(e.verif_cpu());
             r = cpu_state(&mut e).to_ref();
             stuck = 0;
-            if judge == Judge::FrameAccounting {
+            if crafted {
+                let target = frame - 1 - rng.below(6);
+                let now = e.verif_frame_clocks() as u64;
+                if now < target {
+                    goto_frame_t(&mut e, target as usize, frame as usize);
+                    t_ref = frames_impl * frame + target;
+                }
+            } else if judge == Judge::FrameAccounting {
                 // forward to shortly before the next frame end (both clocks)
                 let target = frame - 1 - rng.below(2500);
                 let now = e.verif_frame_clocks() as u64;
@@ -355,6 +472,54 @@ pub fn run(m128: bool, seed: u64, steps: usize, judge: Judge, prefix: &str, ctx:
         }
     }
     Ok(())
+}
+
+struct OnePoke([rustzx_core::poke::PokeAction; 1]);
+impl rustzx_core::poke::Poke for OnePoke {
+    fn actions(&self) -> &[rustzx_core::poke::PokeAction] {
+        &self.0
+    }
+}
+
+/// A host action that must leave the running machine untouched: snapshot / tape files the loaders reject,
+/// a snapshot save, an idempotent poke. Returns its name.
+fn host_action(e: &mut Emu, m128: bool, sel: u64, ctx: &mut RunCtx) -> &'static str {
+    use rustzx_core::host::{Snapshot, SnapshotRecorder};
+    ctx.probe("lockstep_host_action");
+    match sel % 6 {
+        0 => {
+            let _ = e.load_snapshot(Snapshot::Sna(crate::host::SimAsset::plain(vec![0u8; 100])));
+            "truncated SNA rejected"
+        }
+        1 => {
+            let _ = e.load_snapshot(Snapshot::Szx(crate::host::SimAsset::plain(b"ZXSX\x01\x04\x00\x00garbage".to_vec())));
+            "SZX with a wrong signature rejected"
+        }
+        2 => {
+            // a snapshot for the other machine model
+            let len = if m128 { 49179 } else { 131103 };
+            let mut v = vec![0u8; len];
+            v[25] = 1;
+            let _ = e.load_snapshot(Snapshot::Sna(crate::host::SimAsset::plain(v)));
+            "SNA of the other model rejected"
+        }
+        3 => {
+            let (rec, _out) = crate::host::SimRecorder::new(crate::host::RecorderPlan::default());
+            let _ = e.save_snapshot(SnapshotRecorder::Sna(rec));
+            "snapshot saved"
+        }
+        4 => {
+            let (rec, _out) = crate::host::SimRecorder::new(crate::host::RecorderPlan { write_err_at: Some(sel >> 8 & 3), ..Default::default() });
+            let _ = e.save_snapshot(SnapshotRecorder::Sna(rec));
+            "snapshot save failed in the recorder"
+        }
+        _ => {
+            let addr = 0x4000 + ((sel >> 8) as u16 % 0xC000);
+            let v = e.peek(addr);
+            e.execute_poke(OnePoke([rustzx_core::poke::PokeAction::mem(addr, v)]));
+            "poke of the value already there"
+        }
+    }
 }
 
 /// One port write of a reference run: T (absolute, from the start of the frame in which the run
@@ -379,7 +544,7 @@ pub fn ref_out_events(m: &mut RefMem, start: &CpuState, t0: u64, t_limit: u64) -
     let mut guard = 0u64;
     while t < t_limit && guard < 50_000_000 {
         guard += 1;
-        let mut bus = MachineBus { m: &mut *m, ula, t, undo: vec![], io_read: false, ambiguous: false, delayed: 0, outs: vec![] };
+        let mut bus = MachineBus { m: &mut *m, ula, t, undo: vec![], io_read: false, ambiguous: false, delayed: 0, outs: vec![], force_int: None };
         let _ = r.step(&mut bus);
         let t_after = bus.t;
         for (t_io, port, value) in bus.outs.drain(..) {
